@@ -193,6 +193,7 @@ def resolve_engine():
 VERIFY_RESOLVE = [ResolvePortref()]
 
 
+@guarded("koi", "hdl21.elab.helpers.resolve_ref_types:update_ref_deps")
 def update_ref_deps_obligations(max_arity=3):
     """update_ref_deps(ref, resolved): the three loop bodies located in the current source, each executed for one
     arbitrary element: (1) a connected port is re-connected through replace(portname, resolved); (2) a dependent slice
